@@ -1630,6 +1630,8 @@ def pipeline_case(kw, keep=None):
     prefix = kw.get("prefix", "S")       # `-p S --sqanti_output` aborts (rreplace hits "SQANTI"; docs/C06): the sqanti option set uses another one
     if dataset == "mono_antisense":
         ds = T.mono_antisense_dataset(seed, kw.get("n_plus", 3), kw.get("n_minus", 9))
+    elif dataset == "mono_both_tails":
+        ds = T.mono_both_tails_dataset(seed)
     else:
         ds = T.metamorphic_dataset(seed, n_chroms=kw.get("n_chroms", 2), genes_per_chrom=kw.get("genes", 3),
                                    reads_per_tx=kw.get("reads_per_tx", 5), novel=kw.get("novel", True), special=special)
@@ -1649,6 +1651,10 @@ def pipeline_case(kw, keep=None):
                 return ("pipeline_crash", "original run rc=%s: %s" % (rc, log[-400:]))
             ident = {"pos": lambda c, v: v, "ivl": lambda c, l: list(l), "strand": lambda s: s}
             base = canon_outputs(os.path.join(d, "out0"), prefix, ident, False)
+            two = reads_in_two_monoexon_models(base)
+            if two:
+                return ("hyp_read_in_two_monoexon_models", "original run: %d read(s) are listed under a '+' AND a '-' novel mono-exonic "
+                        "model built from the same reads, e.g. %s" % (len(two), two[:2]))
             _BASE_CACHE[key] = base
         if mode == "shift":
             k = kw["k"]
@@ -1925,6 +1931,30 @@ def real_data_plan(ctx):
     return plan
 
 
+def reads_in_two_monoexon_models(canon):
+    """interface hypothesis of mirror_dual_constructMonoNovel monitored on the real pipeline (`voters_exclusive`): no read
+    is listed in transcript_model_reads.tsv under two novel MONO-exonic models of opposite strands that overlap by more
+    than half (two models built from one read set: reads with both tails, 7594462).  -> [(read, model, model)]"""
+    import ast
+    by = {}
+    for rd, m in canon.get("transcript_model_reads.tsv", []):
+        try:
+            c, st, chain = ast.literal_eval(m)
+        except (ValueError, SyntaxError):
+            continue
+        if len(chain) == 1:
+            by.setdefault(rd, []).append((c, st, chain[0]))
+    out = []
+    for rd, ms in sorted(by.items()):
+        for i in range(len(ms)):
+            for j in range(i + 1, len(ms)):
+                (c1, s1, a), (c2, s2, b) = ms[i], ms[j]
+                ov = min(a[1], b[1]) - max(a[0], b[0]) + 1
+                if c1 == c2 and s1 != s2 and 2 * ov > min(a[1] - a[0] + 1, b[1] - b[0] + 1):
+                    out.append((rd, ms[i], ms[j]))
+    return out
+
+
 def _no_pending(r):
     """a run whose only differences are classes awaiting another builder's repair is not a failure (it is counted in
     PENDING_SEEN -> evidence `pending_repair_classes` + a PENDING-REPAIR note)"""
@@ -1950,6 +1980,8 @@ def pipeline_plan(ctx):
     plan.append(dict(g2, mode="mirror"))
     plan.append(dict(g2, mode="mirror", n_plus=9, n_minus=3))
     plan.append(dict(g2, mode="shift", k=ctx.rng.choice(SHIFTS + [257])))
+    # follow-up of 7594462: reads with both tails (no read in two models; mirror-symmetric)
+    plan.append(dict(g2, dataset="mono_both_tails", mode="mirror"))
     # option sets the standard runs never use, rotated over the seeds (the metamorphic data set; reflection + one shift)
     n_opt = 1 if quick else len(OPTION_SETS)
     start = ctx.seed % len(OPTION_SETS)
@@ -2014,6 +2046,12 @@ def oracle(ctx, disagreements, broken):
     n = 0
     for kw in END_TIE_REGRESSIONS:
         _run(ctx, "assigner", dict(kw, what="assigner"), lambda i: assigner_case(i))
+        n += 1
+    # interface hypothesis of mirror_dual_constructMonoNovel on the real code: no read in clusters of both strands
+    from props import c11x_mononovel as MN
+    for _, _, kw in MN.vote_cases(ctx.rng, 100 if quick else 1000):
+        _run(ctx, "hyp_read_in_two_clusters", dict(kw, what="mono_votes"),
+             lambda i: (lambda r: ("hyp_read_in_two_clusters", r) if r else None)(MN.shared_read_problem(i)))
         n += 1
     # seeded with the disagreeing inputs
     for d in disagreements:
@@ -2161,6 +2199,9 @@ def replay(ctx, failure):
             return thread_mirror_case(inp) is not None
         if what == "pipeline":
             return same_kind(pipeline_case(inp), "pipeline")
+        if what == "mono_votes":
+            from props import c11x_mononovel as MN
+            return MN.shared_read_problem(inp) is not None
         if what == "realdata":
             return same_kind(real_data_case(inp), "pipeline")
         if what == "elong_hyp":
